@@ -884,9 +884,15 @@ pub fn json_diagram_sized(d: &mut Decider, large: bool) -> GSpec {
         } else {
             1
         };
-        let v = if ty == 3 {
+        let v = if ty == 3 && d.coin("j.hdef", 1, 2) {
             // H-box: default phase 1
             g.add(3, 1, 1)
+        } else if ty == 3 {
+            // H-box with another label: phase 0 (NOT the default), 1/2, k/4, ...
+            let den = *d.pick("j.hden", &[1i64, 1, 2, 4, 8, 3]);
+            let num = d.range("j.hnum", -(den - 1), den);
+            let (n, dd) = reduce(if den == 1 { 0 } else { num }, den);
+            g.add(3, n, dd)
         } else {
             let den = if allow_big && d.coin("j.usebig", 1, 4) {
                 *d.pick("j.bden", &big_dens)
@@ -1034,7 +1040,8 @@ pub fn json_diagram_sized(d: &mut Decider, large: bool) -> GSpec {
     // and up to 2^1000, as the scalar of a diagram with a few thousand Hadamard edges has
     let far = |d: &mut Decider, near: i64| -> i32 {
         match d.choose("j.sp.class", 12) {
-            0 => d.range("j.sp.huge", -2000, 2000) as i32,
+            // up to |s| = 2^1150: beyond the range of f64 (the format carries a power of two)
+            0 => d.range("j.sp.huge", -2300, 2300) as i32,
             1 | 2 => d.range("j.sp.big", -600, 600) as i32,
             _ => d.range("j.sp", -near, near) as i32,
         }
